@@ -170,6 +170,7 @@ Ltac leaf0 U := idtac;
       lazymatch goal with
       | |- context [_ / ?s] =>
           rw_local s;
+          repeat match goal with E : ?v = ?x * ?x |- context [?v] => is_var v; rewrite E end;   (* let-bound squares of the radicand *)
           lazymatch goal with
           | |- context [_ / sqrt ?Rd] =>
               repeat match goal with H : _ |- _ => lazymatch type of H with R => fail | _ => clear H end end;
